@@ -4,4 +4,9 @@ META = {
         "note": "Bounds: <= 6 consumer offsets, buffers <= 4 values, <= 2 consumers; inductive steps rely on the hand-written representation invariant in the harness; environment models trusted.",
     },
 }
+_T = "Bounded symbolic verification: the real functions are executed symbolically from go/ssa (regenerated from /repo on every run) over all 64-bit values and pre-states within the stated shape bounds%s, and z3 decides every assertion, panic-freedom, unwinding and reachability obligation; counterexamples are replayed natively before being reported."
+META["C01"] = {"text": _T % "", "note": "Inductive steps from the hand-written Buffer representation invariant (<= 4 values, <= 2 consumers); the composition argument (critical sections are atomic, each refines one FIFO step) is prose in DESIGN.md; asynchronous Get is covered by C05."}
+META["C02"] = {"text": _T % "", "note": "Windows of <= 3 uncommitted reads, buffers <= 4 values; sharing one consumer between goroutines under the symbolic scheduler is outside."}
+META["C08"] = {"text": _T % " and, for the race harness, over every schedule of Send || 2 receivers within T=24 scheduler steps", "note": "Interleaving claim is a small-scope claim (3 goroutines); sync/atomic/channel models trusted; 3+ receivers and two racing senders are outside."}
+META["C13"] = {"text": _T % "", "note": "reflect stubs (TryRecv, Interface) trusted; pending buffer <= 4, source <= 3 values, histories of 6 operations."}
 NOT_APPLICABLE = {}
